@@ -80,4 +80,24 @@ MODULES = {
                      ('a[midpoint_idx:midpoint_idx + 2].mean()', 'Q', 'pair_mean'), ('a[midpoint_idx]', 'Q', 'value')],
              fragment={'first': 'midpoint = ', 'last': 'return a[midpoint_idx]'}, ret='Q'),
     ]),
+    # the decorators: `wrapper(a, **kwargs)` (spec key allow_kwarg: **kwargs only flows into the opaque call of f)
+    'FnOnArray': ('cnvlib/descriptives.py', [
+        dict(name='on_array.outer.wrapper', coq='fn_on_array', py_params=['a'], closure=['default'], allow_kwarg=True,
+             params=[('len(a)', 'Z', 'n'), ('a[0]', 'Q', 'first'), ('default', 'OQ'), ('f(a, **kwargs)', 'OQ', 'wrapped')],
+             fragment={'first': 'if not len(a)', 'last': 'return f(a, **kwargs)'}, ret='OQ'),
+        # on_weighted_array: the length guard and the empty-input return; `rest__` stands for what the rest of the body returns
+        dict(name='on_weighted_array.outer.wrapper', coq='fn_on_weighted_empty', py_params=['a', 'w'], closure=['default'],
+             allow_kwarg=True, params=[('len(a)', 'Z', 'n_a'), ('len(w)', 'Z', 'n_w'), ('rest__', 'OQ', 'rest')],
+             fragment={'first': 'if len(a) != len(w)', 'last': 'if not len(a)'}, returns=['rest__'], ret='OQ'),
+        # ... from `if len(a) == 1:` (a is final there) to the call of the wrapped function; w is one element of the weights
+        dict(name='on_weighted_array.outer.wrapper', coq='fn_on_weighted_array', py_params=['a', 'w'], closure=['default'],
+             allow_kwarg=True,
+             params=[('len(a)', 'Z', 'n'), ('a[0]', 'Q', 'first'), ('default', 'OQ'), ('w', 'OQ'),
+                     ('w_nan.any()', 'B', 'any_w_nan'), ('f(a, w, **kwargs)', 'OQ', 'wrapped')],
+             fragment={'first': 'if len(a) == 1', 'last': 'return f(a, w, **kwargs)'}, ret='OQ'),
+        # ... and the NaN fill of one weight: w_nan = np.isnan(w); if w_nan.any(): w[w_nan] = 0.0
+        dict(name='on_weighted_array.outer.wrapper', coq='fn_weight_fill', py_params=['a', 'w'], closure=['default'],
+             allow_kwarg=True, params=[('w', 'OQ'), ('w_nan.any()', 'B', 'any_w_nan')],
+             fragment={'first': 'w_nan = np.isnan(w)', 'last': 'if w_nan.any()'}, returns=['w'], ret='OQ'),
+    ]),
 }
